@@ -591,6 +591,7 @@ func (rn *runner) aloneCanon(b *Batch, i int) (string, string) {
 	one := *b
 	one.Scripts = []Script{b.Scripts[i]}
 	one.Scripts[0].DelayMs = 0
+	one.Scripts[0].Base = ""  // alone, the file is called after the name it had in the batch
 	one.Procs, one.Par = 2, 8 // the solitary run does not depend on the variant of the batch
 	key := specKey(&one)
 	rn.aloneMu.Lock()
@@ -648,6 +649,30 @@ func (rn *runner) evalBatch(b *Batch, withAlone bool, sched []int) ([]finding, *
 		return fs, ro
 	}
 	// ---- direct oracles
+	// every subtest has its own name, hence its own work directory: the names RunT gives are the base
+	// names made unique
+	{
+		var want []string
+		for i := range b.Scripts {
+			want = append(want, b.Scripts[i].Name)
+		}
+		seen := map[string]bool{}
+		dup := false
+		for _, n := range ro.res.Names {
+			if seen[n] {
+				dup = true
+			}
+			seen[n] = true
+		}
+		if dup {
+			add("impl-violation", "workdir/shared", fmt.Sprintf("two subtests of one RunT call were given the same name, hence the same work directory: script files %v got the names %v", bases(b), ro.res.Names), fmt.Sprint(want), fmt.Sprint(ro.res.Names))
+			return fs, ro
+		}
+		if fmt.Sprint(want) != fmt.Sprint(ro.res.Names) {
+			add("correspondence", "names", "RunT named the subtests differently from the harness's expectation", fmt.Sprint(want), fmt.Sprint(ro.res.Names))
+			return fs, ro
+		}
+	}
 	if len(ro.escaped) > 0 {
 		add("impl-violation", "workdir/escape", "archive entries were unpacked outside the work directory of their script, at "+strings.Join(ro.escaped, ", "), "", "")
 	}
@@ -779,6 +804,14 @@ func (rn *runner) evalBatch(b *Batch, withAlone bool, sched []int) ([]finding, *
 		add("correspondence", "model/root", "model's root directory state", mtail, wantRoot)
 	}
 	return fs, ro
+}
+
+func bases(b *Batch) []string {
+	var out []string
+	for i := range b.Scripts {
+		out = append(out, fmt.Sprintf("%d/%s.txt", i, b.Scripts[i].fileBase()))
+	}
+	return out
 }
 
 func flatEnv(ps []ProbeObs) []string {
@@ -1019,6 +1052,17 @@ func escapeBatch() Batch {
 	return Batch{Procs: 2, Par: 8, Canary: true, Scripts: []Script{a, b}}
 }
 
+func dupNamesBatch() Batch {
+	mk := func(name, base, data string) Script {
+		return Script{Name: name, Base: base, Files: []File{{Path: "who.txt", Data: data}},
+			Body: []Action{{Op: "O"}, {Op: "W", Path: "mine-" + data, Data: data}, {Op: "D", ID: 1}, {Op: "O"}}}
+	}
+	b := Batch{Procs: 4, Par: 8, Canary: true}
+	b.Scripts = []Script{mk("foo#1", "foo#1", "c"), mk("foo", "foo", "a"), mk("foo#2", "foo", "b"), mk("bar", "bar", "d"), mk("bar#1", "bar", "e")}
+	b.Scripts[0].DelayMs, b.Scripts[2].DelayMs = 30, 60
+	return b
+}
+
 type item struct {
 	b     Batch
 	tag   string
@@ -1081,6 +1125,17 @@ func (rn *runner) mainC04() {
 	}
 	eb := escapeBatch()
 	addB(eb, "hand")
+	// the same with script names of which one is a string prefix of the other (a, a2)
+	eb3 := escapeBatch()
+	eb3.Scripts[1].Name = "a2"
+	eb3.Scripts[0].Files = []File{{Path: "a.txt", Data: "x\n"}, {Escape: "sibling:a2", Data: "planted by a\n"}}
+	addB(eb3, "hand")
+	// script files with the same base name in different directories, one of them looking like a
+	// disambiguated name: c/foo#1.txt, a/foo.txt, b/foo.txt must run as foo#1, foo, foo#2
+	addB(dupNamesBatch(), "hand")
+	dn := dupNamesBatch()
+	dn.Retain = "testwork"
+	addB(dn, "hand")
 	eb2 := escapeBatch()
 	eb2.Retain, eb2.NonRoot = "workdirroot", rn.nonRoot
 	addB(eb2, "hand")
